@@ -10,11 +10,14 @@ import (
 	"net/http"
 	"net/http/httptest"
 	"net/url"
+	"strconv"
+	"strings"
 	"testing"
 
 	"google.golang.org/grpc"
 	"google.golang.org/grpc/codes"
 	"google.golang.org/grpc/status"
+	"google.golang.org/protobuf/proto"
 	"pgregory.net/rapid"
 
 	pb "github.com/fullstorydev/grpchan/grpchantesting"
@@ -59,6 +62,12 @@ type c14Case struct {
 	HTTP      int    // fallback: HTTP status
 	Stream    bool   // fallback: through NewStream instead of Invoke
 	Body      string // fallback: what the proxy-like reply carries ("empty","text")
+	// reply mode: an arbitrary unary HTTP reply is presented to the client
+	HasGS   bool     `json:",omitempty"` // X-GRPC-Status header present
+	GS      string   `json:",omitempty"` // its value
+	Details []string `json:",omitempty"` // X-GRPC-Details header values
+	CT      string   `json:",omitempty"`
+	Raw     []byte   `json:",omitempty"` // reply body
 }
 
 func c14Renderer(name string) []httpgrpc.HandlerOption {
@@ -77,8 +86,11 @@ func c14Renderer(name string) []httpgrpc.HandlerOption {
 
 func propC14(c c14Case) *Outcome {
 	o := &Outcome{}
-	if c.Mode == "forward" {
+	switch c.Mode {
+	case "forward":
 		return c14Forward(c, o)
+	case "reply":
+		return c14Reply(c, o)
 	}
 	return c14Fallback(c, o)
 }
@@ -264,6 +276,118 @@ func c14Fallback(c c14Case, o *Outcome) *Outcome {
 	return o
 }
 
+// c14HeaderCode: the code a well-formed X-GRPC-Status value ("<decimal int32>:<message>", what the server
+// writes) announces. ok=false: the value is not of that form.
+func c14HeaderCode(v string) (code uint32, msg string, hasMsg, ok bool) {
+	num := v
+	if i := strings.IndexByte(v, ':'); i >= 0 {
+		num, msg, hasMsg = v[:i], v[i+1:], true
+	}
+	digits := num
+	if strings.HasPrefix(digits, "-") {
+		digits = digits[1:]
+	}
+	if digits == "" || len(digits) > 10 {
+		return 0, "", false, false
+	}
+	for _, ch := range digits {
+		if ch < '0' || ch > '9' {
+			return 0, "", false, false
+		}
+	}
+	n, err := strconv.ParseInt(num, 10, 32)
+	if err != nil {
+		return 0, "", false, false
+	}
+	return uint32(int32(n)), msg, hasMsg, true
+}
+
+// c14Reply: whatever a server or an intermediary answers to a unary call, the caller derives the outcome by
+// the rules of the statement: a well-formed status header decides (exact code and message); without one,
+// 2xx alone means OK; and OK is reported as success only with a response that decodes - the message handed
+// to the caller is then exactly the decoding of the body.
+func c14Reply(c c14Case, o *Outcome) *Outcome {
+	hdr := http.Header{}
+	if c.HasGS {
+		hdr["X-Grpc-Status"] = []string{c.GS}
+	}
+	if len(c.Details) > 0 {
+		hdr["X-Grpc-Details"] = append([]string{}, c.Details...)
+	}
+	if c.CT != "" {
+		hdr["Content-Type"] = []string{c.CT}
+	}
+	ch := &httpgrpc.Channel{BaseURL: baseURL, Transport: rtFunc(func(r *http.Request) (*http.Response, error) {
+		go io.Copy(io.Discard, r.Body)
+		return &http.Response{StatusCode: c.HTTP, Status: fmt.Sprintf("%d %s", c.HTTP, http.StatusText(c.HTTP)), Proto: "HTTP/1.1", ProtoMajor: 1, ProtoMinor: 1,
+			Header: hdr, Body: io.NopCloser(bytes.NewReader(c.Raw)), Request: r}, nil
+	})}
+	resp := &pb.Message{Count: 424242}
+	var err error
+	var pnc interface{}
+	func() {
+		defer func() { pnc = recover() }()
+		err = ch.Invoke(context.Background(), mUnary, &pb.Message{}, resp)
+	}()
+	if pnc != nil {
+		return o.failf("reply HTTP %d, X-GRPC-Status %q (present=%v): client panicked: %v", c.HTTP, c.GS, c.HasGS, pnc)
+	}
+	is2xx := c.HTTP >= 200 && c.HTTP < 300
+	code, msg, hasMsg, wellFormed := c14HeaderCode(c.GS)
+	o.class("reply/%dxx/header=%v/wellformed=%v", c.HTTP/100, c.HasGS, c.HasGS && wellFormed)
+	o.NonTrivial = true
+	o.Observed = map[string]interface{}{"client_code": uint32(status.Code(err)), "err": fmt.Sprint(err)}
+	switch {
+	case c.HasGS && wellFormed && code != 0:
+		if err == nil {
+			return o.failf("reply HTTP %d with X-GRPC-Status %q reported as success", c.HTTP, c.GS)
+		}
+		st, ok := status.FromError(err)
+		if !ok || uint32(st.Code()) != code {
+			return o.failf("reply HTTP %d with X-GRPC-Status %q: caller got %v, want code %d", c.HTTP, c.GS, err, code)
+		}
+		if hasMsg && st.Message() != msg {
+			return o.failf("reply with X-GRPC-Status %q: caller got message %q", c.GS, st.Message())
+		}
+		return o
+	case c.HasGS && wellFormed && code == 0 && !is2xx:
+		return o // an OK status header on a non-2xx reply: the statement takes no side
+	case c.HasGS && !wellFormed && c.GS != "":
+		// garbage in the header: nothing is promised beyond "non-2xx is never success"
+		if !is2xx && err == nil {
+			return o.failf("reply HTTP %d with unparseable X-GRPC-Status %q reported as success", c.HTTP, c.GS)
+		}
+		if is2xx && err != nil {
+			return o
+		}
+	}
+	if !is2xx {
+		if err == nil {
+			return o.failf("reply HTTP %d without a gRPC status reported as success", c.HTTP)
+		}
+		if _, ok := status.FromError(err); !ok || status.Code(err) == codes.OK {
+			return o.failf("reply HTTP %d without a gRPC status: error is not a non-OK status: %v", c.HTTP, err)
+		}
+		return o
+	}
+	// derived OK: success exactly when the body decodes, and then with exactly that message
+	want := new(pb.Message)
+	decErr := proto.Unmarshal(c.Raw, want)
+	if decErr != nil {
+		if err == nil {
+			return o.failf("reply HTTP %d, derived OK, body of %d bytes does not decode (%v): reported as success with %v", c.HTTP, len(c.Raw), decErr, resp)
+		}
+		return o
+	}
+	if err != nil {
+		return o.failf("reply HTTP %d, derived OK, body decodes: caller got %v", c.HTTP, err)
+	}
+	if !proto.Equal(resp, want) {
+		return o.failf("reply HTTP %d: caller's response %v is not the decoding of the body %v", c.HTTP, resp, want)
+	}
+	return o
+}
+
 var c14Codes = []uint32{0, 1, 2, 3, 4, 5, 6, 7, 8, 9, 10, 11, 12, 13, 14, 15, 16, 17, 18, 99, 255, 1000, 1<<31 - 1, 1 << 31, 1<<32 - 1}
 
 func c14Enumerate() []c14Case {
@@ -298,7 +422,47 @@ func c14Enumerate() []c14Case {
 	return cs
 }
 
+func genC14Reply(t *rapid.T) c14Case {
+	c := c14Case{Mode: "reply"}
+	c.HTTP = rapid.OneOf(rapid.IntRange(100, 599), rapid.SampledFrom([]int{200, 200, 204, 299, 300, 199, 404, 500, 502})).Draw(t, "http")
+	c.HasGS = rapid.IntRange(0, 3).Draw(t, "hasgs") != 0
+	if c.HasGS {
+		c.GS = rapid.OneOf(
+			rapid.Custom(func(t *rapid.T) string {
+				return fmt.Sprintf("%d:%s", rapid.OneOf(rapid.Int32Range(-2, 20), rapid.Int32()).Draw(t, "gscode"), rapid.OneOf(rapid.Just(""), rapid.StringMatching(`[ -~]{0,20}`), rapid.String()).Draw(t, "gsmsg"))
+			}),
+			rapid.Custom(func(t *rapid.T) string {
+				return strconv.Itoa(rapid.IntRange(-1, 17).Draw(t, "gscodeonly"))
+			}),
+			rapid.SampledFrom([]string{"", ":", ":x", "x:y", "0", "0:", "00:x", "+5:plus", " 5:sp", "5 :sp", "0x5:hex", "5.0:f", "2147483648:big", "-2147483649:small", "4294967295:u32", "99999999999:huge", "5:a:b", "1e1:exp", "٥:arabic"}),
+			rapid.String(),
+		).Draw(t, "gs")
+	}
+	nd := rapid.SampledFrom([]int{0, 0, 0, 1, 2}).Draw(t, "ndetails")
+	for i := 0; i < nd; i++ {
+		c.Details = append(c.Details, rapid.OneOf(rapid.SampledFrom([]string{"", "!!", "AA", "CgF4EgF5"}), rapid.StringMatching(`[A-Za-z0-9_-]{0,24}`)).Draw(t, "detail"))
+	}
+	c.CT = rapid.SampledFrom([]string{"", httpgrpc.UnaryRpcContentType_V1, "application/json", "text/plain; charset=utf-8", "text/html"}).Draw(t, "replyct")
+	switch rapid.IntRange(0, 4).Draw(t, "bodyclass") {
+	case 0:
+	case 1, 2:
+		m := genMsg(t, "reply", 4096)
+		c.Raw = mustMarshal(m.Build())
+		if rapid.IntRange(0, 3).Draw(t, "bodycut") == 0 && len(c.Raw) > 0 {
+			c.Raw = c.Raw[:rapid.IntRange(0, len(c.Raw)-1).Draw(t, "bodycutat")]
+		}
+	case 3:
+		c.Raw = rapid.SliceOfN(rapid.Byte(), 0, 64).Draw(t, "bodyraw")
+	default:
+		c.Raw = []byte(rapid.SampledFrom([]string{"OK\n", "<html><body>502 Bad Gateway</body></html>", "{}", `{"count":1}`, "Not Found\n"}).Draw(t, "bodytext"))
+	}
+	return c
+}
+
 func genC14(t *rapid.T) c14Case {
+	if rapid.IntRange(0, 3).Draw(t, "replymode") == 0 {
+		return genC14Reply(t)
+	}
 	if rapid.IntRange(0, 3).Draw(t, "mode") == 0 {
 		return c14Case{Mode: "fallback", HTTP: rapid.IntRange(100, 599).Draw(t, "http"), Stream: rapid.Bool().Draw(t, "stream"),
 			Body: rapid.SampledFrom([]string{"empty", "text"}).Draw(t, "body")}
@@ -316,7 +480,28 @@ func init() { registerReplay("C14", propC14) }
 
 const c14Rule = "exhaustive grid {25 gRPC codes incl. out-of-range} x {request ctx cancelled or not} x {4 renderers} x {Server, HandleServices} (forward: HTTP status by documented table + client recovers exact code) " +
 	"and every HTTP status 100..599 x {Invoke, NewStream} x {empty, text body} without X-GRPC-Status (fallback: OK iff 2xx), plus rapid-drawn codes over all of uint32 with drawn messages; " +
+	"and arbitrary unary replies (HTTP status x X-GRPC-Status present/absent/well-formed/garbage x details headers x content types x bodies: encoded messages whole or cut, random bytes, proxy texts) through a replaying RoundTripper (reply mode; also FuzzUnaryReply in the thorough tier): well-formed non-OK header => exactly that code and message, no header => OK iff 2xx, non-2xx never success, derived OK => success iff the body decodes and then the caller's message is the decoding of the body, never a panic; " +
 	"non-trivial = any case except a forward case with code OK; distinct by case hash"
+
+// FuzzUnaryReply: coverage-guided search over unary replies presented to the client.
+func FuzzUnaryReply(f *testing.F) {
+	f.Add(uint16(200), true, "0:OK", "", "application/x-protobuf", []byte{})
+	f.Add(uint16(500), true, "13:boom", "CgF4EgF5", "application/x-protobuf", []byte{})
+	f.Add(uint16(200), false, "", "", "text/plain", []byte("OK\n"))
+	f.Add(uint16(404), false, "", "", "text/plain", []byte("Not Found\n"))
+	f.Add(uint16(200), true, "-1:neg", "!!", "", []byte{0x08, 0x01})
+	f.Add(uint16(299), true, "2147483647:max", "", "", []byte{0x0a, 0x03, 1, 2})
+	f.Add(uint16(200), true, ":", "", "", []byte{0xff})
+	f.Fuzz(func(t *testing.T, httpStatus uint16, hasGS bool, gs, detail, ct string, body []byte) {
+		c := c14Case{Mode: "reply", HTTP: 100 + int(httpStatus)%500, HasGS: hasGS, GS: gs, CT: ct, Raw: body}
+		if detail != "" {
+			c.Details = []string{detail}
+		}
+		if o := propC14(c); o.Fail != "" {
+			t.Fatalf("C14: %s", o.Fail)
+		}
+	})
+}
 
 func TestC14(t *testing.T) {
 	rec("C14").rule = c14Rule
